@@ -323,7 +323,17 @@ fn worker(universe: &str, cases: &str, from: usize, to: usize, out: &str) {
         let p = project_of(&c, corpus.as_ref());
         let (mut evs, pmsg, _) = observe(&p, c.no_std);
         apply_stub(&c.id, &mut evs);
-        let rec = finish_record(src.head(i), evs, &pmsg, t0.elapsed().as_millis());
+        let mut head = src.head(i);
+        let mut content = String::new();
+        for (k, v) in &c.files {
+            content.push_str(k);
+            content.push('\u{1}');
+            content.push_str(v);
+            content.push('\u{2}');
+        }
+        head["h"] = json!(hex(fnv(&format!("{}|{}|{}|{}", c.main, c.no_std, c.corpus, content))));
+        head["ntok"] = json!(c.files.get(&c.main).map(|t| string_to_tokens(0, t).len().saturating_sub(1)).unwrap_or(0));
+        let rec = finish_record(head, evs, &pmsg, t0.elapsed().as_millis());
         let mut line = serde_json::to_string(&rec).unwrap();
         line.push('\n');
         f.write_all(line.as_bytes()).unwrap();
@@ -694,6 +704,7 @@ fn gen_mutations(count: usize, corpus: &Corpus) -> Vec<Case> {
         }
     }
     let mut rng = rand::rngs::StdRng::seed_from_u64(seed() ^ 0xC07);
+    let mut seen_ids: std::collections::HashSet<String> = Default::default();
     let mut attempts = 0usize;
     while out.len() < count && attempts < count * 20 {
         attempts += 1;
@@ -879,7 +890,14 @@ fn gen_mutations(count: usize, corpus: &Corpus) -> Vec<Case> {
         if nesting(&text) > MAX_DEPTH {
             continue;
         }
-        out.push(mk_case(format!("mut:{}:{}:{}", kind, name, tag), kind, name, text));
+        let no_std = rng.gen_range(0..4) == 0;
+        let id = format!("mut:{}:{}:{}{}", kind, name, tag, if no_std { ":nostd" } else { "" });
+        if !seen_ids.insert(id.clone()) {
+            continue;
+        }
+        let mut case = mk_case(id, kind, name, text);
+        case.no_std = no_std;
+        out.push(case);
     }
     out
 }
@@ -949,6 +967,31 @@ const MAINS: &[(&str, &str)] = &[
     ("conflict-marker", "<<<<<<< HEAD\nx :: 1\n=======\nx :: 2\n>>>>>>> other\n"),
     ("syntax-error-and-use", "use b\nx :: :: 1\nstart :: fn do end\n"),
     ("type-error-and-use", "use b\nx: int = \"s\"\nstart :: fn do end\n"),
+    // arbitrary text
+    ("text-unterminated-string", "x :: 1\ny :: \"abc\n"),
+    ("text-unterminated-string-multiline", "x :: 1\nyy :: \"abc\nz :: 2\n"),
+    ("text-unterminated-string-short-last-line", "x :: 1\nyyyyyyyy :: \"abc\nz\n"),
+    ("text-string-with-newline-short-last-line", "x :: 1\nyyyyyyyy :: 1 + \"abc\nz\" + + 2\n"),
+    ("text-string-with-newline", "x :: \"abc\ndef\"\nstart :: fn do end\n"),
+    ("text-lone-quote", "\""),
+    ("text-only-blanks", "  \t \n\n   \n"),
+    ("text-crlf", "x :: 1\r\nstart :: fn do\r\n    y := x\r\nend\r\n"),
+    ("text-bom", "\u{FEFF}x :: 1\nstart :: fn do end\n"),
+    ("text-nul", "x :: 1\u{0}\nstart :: fn do end\n"),
+    ("text-non-ascii-ident", "h\u{e9} :: 1\nstart :: fn do end\n"),
+    ("text-non-ascii-string", "x :: \"\u{65e5}\u{672c}\u{1F600}\"\nstart :: fn do\n    y := x + 1\nend\n"),
+    ("text-non-ascii-before-error", "x :: \"\u{65e5}\u{672c}\" + + 1\n"),
+    ("text-prose", "Lorem ipsum dolor sit amet, consectetur adipiscing elit.\nSed do eiusmod tempor; incididunt ut labore!\n"),
+    ("text-lua", "local x = 1\nfunction f(a) return a + x end\nprint(f(2))\n"),
+    ("text-symbols", "!@#$%^&*()_+-=[]{}|;':,./<>?`~\\\n"),
+    ("text-huge-int", "x :: 99999999999999999999999999\nstart :: fn do end\n"),
+    ("text-huge-float", "x :: 1e999\ny :: 1.e\nstart :: fn do end\n"),
+    ("text-long-line", "x :: 1 + 1 + 1 + 1 + 1 + 1 + 1 + 1 + 1 + 1 + 1 + 1 + 1 + 1 + 1 + 1 + 1 + 1 + 1 + 1 + 1 + 1 + 1 + 1 + 1 + 1 + 1 + 1 + 1 + 1 + 1 + 1 + 1 + 1 + 1 + 1 + 1 + 1 + 1 + \"s\"\nstart :: fn do end\n"),
+    ("text-nested-40", "x :: ((((((((((((((((((((((((((((((((((((((((1))))))))))))))))))))))))))))))))))))))))\nstart :: fn do end\n"),
+    ("text-nested-40-open", "x :: ((((((((((((((((((((((((((((((((((((((((1\n"),
+    ("text-unary-chain", "x :: - - - - - - - - - - - - - - - - - - - - - - - - - - - - - - 1\ny :: not not not not not not not not not not true\nstart :: fn do end\n"),
+    ("text-top-level-loop", "loop do end end"),
+    ("text-top-level-stmts", "x = 1\nret 1\nbreak\ncontinue\nif true do end\n<!>\n"),
 ];
 
 /// variants of module b ("-" = file absent)
@@ -1276,7 +1319,14 @@ fn skeleton(c: &Case) -> String {
                 Token::String(_) => "\"s\"".into(),
                 Token::Newline => ";".into(),
                 Token::Comment(_) | Token::EOF => continue,
-                Token::Error => "<err>".into(),
+                Token::Error => {
+                    let shape = if spelled.starts_with('"') { "unterminated-string" } else { "char" };
+                    if spelled.contains('\n') {
+                        format!("<err:{}:multiline>", shape)
+                    } else {
+                        format!("<err:{}>", shape)
+                    }
+                }
                 Token::Bool(b) => format!("{}", b),
                 Token::Nil => "nil".into(),
                 _ => ascii(spelled),
@@ -1348,6 +1398,21 @@ fn minimise(case_path: &str) {
                 if best.files.contains_key(name) {
                     best = ddmin_file(&mut m, &best, name);
                 }
+            }
+        }
+        for name in &names {
+            let has_err = best.files.get(name).map(|t| string_to_tokens(0, t).iter().any(|p| matches!(p.token, Token::Error)));
+            if has_err == Some(true) {
+                best = ddmin_chars(&mut m, &best, name);
+            }
+        }
+        if !best.corpus && best.files.len() == 1 && best.main != "main.sy" && best.files.contains_key(&best.main) {
+            let mut t = best.clone();
+            let text = t.files.remove(&best.main).unwrap();
+            t.files.insert("main.sy".into(), text);
+            t.main = "main.sy".into();
+            if m.still_fails(&t) {
+                best = t;
             }
         }
         if !best.corpus {
